@@ -14,6 +14,7 @@
    and the computable dom / known / good predicates the check evaluates on the implementation. *)
 From Coq Require Import String ZArith List.
 From TS Require Import Model.Str Model.Syntax Model.Types Model.Lang.Decl.
+From TS Require Spec.C02Spec.
 Import ListNotations.
 Open Scope N_scope.
 
@@ -442,6 +443,39 @@ Definition known_C05_site (L : lang) (c : c05_cfg) (s : c05_site) (g : list str)
   end.
 Definition good_C05_site (L : lang) (c : c05_cfg) (s : c05_site) (g : list str) (t : rtype) (obs : option texp) : bool :=
   good_C05 L c (c05_site_generics s g) t obs.
+
+(* ---- Go with uppercase_acronyms ----
+   Go follows its naming convention by upper-casing configured acronyms (UserId -> UserID). The rewrite of ONE
+   name is Spec.C02Spec.c02_go_rewrite (the PascalCase form of each acronym is searched in the name, leftmost and
+   non-overlapping; an occurrence followed by a non-lowercase character or by the end is upper-cased): it changes
+   the ASCII CASE of letters and nothing else.  The type written at a struct field, a struct-variant field and a
+   tuple-variant payload is the translation with EVERY name rewritten - user types, generic parameters, the
+   configured names of type_mappings (verbatim text is rewritten as text) -; the shape of the type, the order of
+   the generic arguments and the position of every name are those of the translation.  Alias targets and const
+   types are NOT rewritten (go.rs:191, go.rs:205).  Whether a rewritten use still agrees with the (rewritten or
+   not rewritten) definition it refers to is C09's subject (classes C09-go-acronym-target, C09-go-acronym-generic,
+   C09-go-acronym-inner). *)
+Fixpoint c05_map_names (T : str -> str) (x : texp) : texp :=
+  match x with
+  | XName n args => XName (T n) (map (c05_map_names T) args)
+  | XSeq e => XSeq (c05_map_names T e)
+  | XFixed es => XFixed (map (c05_map_names T) es)
+  | XMap k v => XMap (c05_map_names T k) (c05_map_names T v)
+  | XOpt e => XOpt (c05_map_names T e)
+  | XRaw s => XRaw (T s)
+  end.
+Definition c05_go_acronyms (acrs : list str) : texp -> texp := c05_map_names (C02Spec.c02_go_rewrite acrs).
+(* the use sites whose type text goes through acronyms_to_uppercase *)
+Definition c05_go_site_rewritten (s : c05_site) : bool :=
+  match s with C05SField | C05SPayload => true | C05SAlias | C05SInlineAlias | C05SConst => false end.
+Definition c05_go_expected (acrs : list str) (c : c05_cfg) (s : c05_site) (g : list str) (t : rtype) : texp :=
+  let x := c05_erase Go c (c05_site_generics s g) t in
+  if c05_go_site_rewritten s then c05_go_acronyms acrs x else x.
+Definition good_C05_site_go (acrs : list str) (c : c05_cfg) (s : c05_site) (g : list str) (t : rtype) (obs : option texp) : bool :=
+  match obs with
+  | Some x => c05_texp_eqb (c05_norm x) (c05_norm (c05_go_expected acrs c s g t))
+  | None => false
+  end.
 
 (* ------------------------------------------------------------------------------------------ *)
 (* Part C: the primitive table                                                                  *)
